@@ -64,6 +64,15 @@ impl OperationControl for Choice {
     }
 
     fn matches_empty_string(&self) -> u32 {
+        // never, if no branch ever does; otherwise whatever is known about
+        // the branches that may
+        if self
+            .branches
+            .iter()
+            .all(|branch| branch.matches_empty_string() == MATCHES_ZLS_NEVER)
+        {
+            return MATCHES_ZLS_NEVER;
+        }
         self.branches.iter().fold(0, |acc, branch| {
             let b = branch.matches_empty_string();
             if b != MATCHES_ZLS_NEVER {
